@@ -64,10 +64,11 @@ pub mod irq_dispatch;
 pub mod joypad_events;
 pub mod lcd_batches;
 pub mod mbc_history;
+pub mod program_lockstep;
 pub mod timer_batches;
 
 pub fn all() -> Vec<&'static dyn Scenario> {
-    vec![&timer_batches::TimerBatches, &block_lockstep::BlockLockstep, &bus_crash::BusCrash, &mbc_history::MbcHistory, &cache_bank_history::CacheBankHistory, &joypad_events::JoypadEvents, &lcd_batches::LcdBatches, &dma_batches::DmaBatches, &bus_history::BusHistory, &irq_dispatch::IrqDispatch, &ime_sequences::ImeSequences]
+    vec![&timer_batches::TimerBatches, &block_lockstep::BlockLockstep, &bus_crash::BusCrash, &mbc_history::MbcHistory, &cache_bank_history::CacheBankHistory, &joypad_events::JoypadEvents, &lcd_batches::LcdBatches, &dma_batches::DmaBatches, &bus_history::BusHistory, &irq_dispatch::IrqDispatch, &ime_sequences::ImeSequences, &program_lockstep::ProgramLockstep]
 }
 
 pub fn by_name(name: &str) -> Option<&'static dyn Scenario> {
@@ -79,6 +80,7 @@ pub fn plan(property: &str) -> Vec<&'static str> {
     match property {
         "C01" | "C02" => vec!["block_lockstep"],
         "C03" => vec!["cache_bank_history"],
+        "C04" => vec!["program_lockstep"],
         "C07" => vec!["irq_dispatch"],
         "C08" => vec!["ime_sequences"],
         "C10" => vec!["bus_history"],
